@@ -17,16 +17,18 @@ theorem eff_length_pos (s : Str) : 0 < (eff s).length := by
   · simp
   · omega
 
+/-- Number of hash characters kept when shortening: `min(room, len(hash))`. -/
+def kept (hash : Str → Str) (p s : Str) (m : Int) : Nat :=
+  (min (m - 1 - (p.length : Int)) ((hash (eff s)).length : Int)).toNat
+
 /-- Shortening branch, in closed form. -/
 theorem gll_short {hash : Str → Str} {p s : Str} {m : Int} (h : shortens p s m = true) :
     getLengthLimitedID hash p s m =
       if m - 1 - (p.length : Int) ≤ 0 then none
-      else if m - 1 - (p.length : Int) > ((hash (eff s)).length : Int) then none
-      else some (p ++ [us] ++ (hash (eff s)).take (m - 1 - (p.length : Int)).toNat) := by
+      else some (p ++ [us] ++ (hash (eff s)).take (kept hash p s m)) := by
   simp only [shortens, decide_eq_true_eq] at h
-  simp only [getLengthLimitedID, eff]
+  simp only [getLengthLimitedID, eff, kept]
   rw [if_pos h]
-  rfl
 
 /-- Verbatim branch. -/
 theorem gll_long {hash : Str → Str} {p s : Str} {m : Int} (h : shortens p s m = false) :
@@ -57,32 +59,38 @@ theorem gll_has_prefix {hash : Str → Str} {p s : Str} {m : Int} {n : Str}
     rw [gll_short hs] at h
     split at h
     · simp at h
-    · split at h
-      · simp at h
-      · simp only [Option.some.injEq] at h
-        exact ⟨_, by rw [← h, List.append_assoc]⟩
+    · simp only [Option.some.injEq] at h
+      exact ⟨_, by rw [← h, List.append_assoc]⟩
   | false =>
     rw [gll_long hs] at h
     simp only [Option.some.injEq] at h
     exact ⟨_, h.symm⟩
 
-/-- A shortened name: exactly `m` long, `_` right after the prefix, then the truncated hash. -/
+/-- A shortened name: `_` right after the prefix, then the hash truncated to
+`kept` characters; it is exactly `m` long when the room does not exceed the hash. -/
 theorem gll_short_some {hash : Str → Str} {p s : Str} {m : Int} {n : Str}
     (hs : shortens p s m = true) (h : getLengthLimitedID hash p s m = some n) :
-    n = p ++ us :: (hash (eff s)).take (m - 1 - (p.length : Int)).toNat ∧ (n.length : Int) = m ∧
-      0 < m - 1 - (p.length : Int) ∧ m - 1 - (p.length : Int) ≤ ((hash (eff s)).length : Int) := by
+    n = p ++ us :: (hash (eff s)).take (kept hash p s m) ∧
+      (n.length : Int) = (p.length : Int) + 1 + (kept hash p s m : Int) ∧
+      (kept hash p s m : Int) = min (m - 1 - (p.length : Int)) ((hash (eff s)).length : Int) ∧
+      0 < m - 1 - (p.length : Int) := by
   rw [gll_short hs] at h
   split at h
   · simp at h
   · next h1 =>
-    split at h
-    · simp at h
-    · next h2 =>
-      simp only [Option.some.injEq] at h
-      refine ⟨by rw [← h]; simp, ?_, by omega, by omega⟩
-      rw [← h]
-      simp only [List.length_append, List.length_cons, List.length_nil, List.length_take]
-      omega
+    simp only [Option.some.injEq] at h
+    have hk : (kept hash p s m : Int) = min (m - 1 - (p.length : Int)) ((hash (eff s)).length : Int) := by
+      unfold kept; rw [Int.toNat_of_nonneg]; omega
+    refine ⟨by rw [← h]; simp, ?_, hk, by omega⟩
+    rw [← h]
+    simp only [List.length_append, List.length_cons, List.length_nil, List.length_take]
+    omega
+
+
+theorem isPrefix_append (p r : Str) : isPrefix p (p ++ r) = true := by
+  induction p with
+  | nil => rfl
+  | cons a p ih => simp [isPrefix, ih]
 
 theorem combineAndTrunc_eq (p s : Str) (M : Nat) : combineAndTrunc p s M = (p ++ s).take M := by
   unfold combineAndTrunc
